@@ -28,7 +28,7 @@ def stable_key(name):
 
 def load_contracts(src):
     import contracts.streams, contracts.binary, contracts.classes, contracts.prims, contracts.oracles, contracts.tables, contracts.bitstream  # noqa
-    for mod in ('wrappers', 'adapters', 'transforms', 'delimited', 'lazy', 'exprs', 'containers', 'codegen', 'ksy', 'lemmas', 'entry'):
+    for mod in ('wrappers', 'adapters', 'transforms', 'delimited', 'intlemmas', 'lazy', 'exprs', 'containers', 'codegen', 'ksy', 'lemmas', 'entry'):
         try:
             __import__('contracts.' + mod)
         except ModuleNotFoundError as e:
@@ -172,6 +172,8 @@ def run(pid, tier, seed, a, t0):
     from pyvc import ghost as _ghost
     import contracts.ghostreg as ghostreg
     gjobs, gobs = [], {}
+    cover_jobs = []
+    cover_info = {}
     ts = time.time()
     contract.USE_LOG.clear()
     for spec in ghostreg.PROGRAMS:
@@ -194,6 +196,9 @@ def run(pid, tier, seed, a, t0):
                 continue
             gobs[key] = r
             gjobs.append((key, prelude.build_query(ob.hyps, ob.goal), prelude.build_query(ob.hyps, ob.goal, opaque=True)))
+            if ob.kind in ('assert', 'ghost-assert') or '/parse ' in ob.name or '/build ' in ob.name or 'assert' in ob.kind:
+                # vacuity guard: the hypotheses reaching an assertion (domain, traits, lemma instances, contracts) must be consistent
+                cover_jobs.append((key, prelude.build_query(ob.hyps, t.FALSE), None))
     stats_all['gen_s'] += time.time() - ts
     if gjobs:
         ts = time.time()
@@ -203,6 +208,11 @@ def run(pid, tier, seed, a, t0):
             gobs[key].result = solved[key]
             gobs[key].text = text
             all_results.append(gobs[key])
+        if cover_jobs:
+            cov = solve.solve_many(cover_jobs, timeout=3, tier='cover')
+            vac = [k for k, res in cov.items() if res.verdict == 'unsat']
+            cover_info['cover_checks'] = len(cover_jobs)
+            cover_info['vacuous'] = ['%s (%s)' % (gobs[k].name, k) for k in vac]
     # ---- supporting contracts: a ghost proof is a proof over the contracts it applies; those contracts (and, transitively,
     # the contracts THEY apply) must hold of the code.  Their functional clauses are verified here as part of this property.
     if P.get('closure_tags'):
@@ -240,6 +250,7 @@ def run(pid, tier, seed, a, t0):
     # ---- tables / native enumerations / bounded stand-ins supplied by the property
     extra = P.get('extra')
     extras = extra(src, tier, seed) if extra else {'tables': [], 'bounded': []}
+    stats_all.update(cover_info)
     return conclude(pid, P, tier, seed, a, t0, src, all_results, oor_all, stats_all, functions_under_contract, extras)
 
 
@@ -470,6 +481,8 @@ def conclude(pid, P, tier, seed, a, t0, src, results, oor, stats, functions, ext
         for v in violations:
             print(v)
         return 1
+    for v in stats.get('vacuous', []) or []:
+        checker_errors.append('vacuous proof: the hypotheses reaching %s are contradictory' % v)
     if checker_errors:
         for c in checker_errors:
             print('CHECKER-ERROR property=%s %s' % (pid, c))
@@ -513,6 +526,7 @@ def write_evidence(pid, P, tier, seed, results, discharged, failed, open_, oor, 
             'known_finding_obligations': sorted({r.name for _, r in known_hits})[:100],
             'solver_seconds': round(stats.get('solve_s', 0), 2), 'vc_generation_seconds': round(stats.get('gen_s', 0), 2),
             'paths_explored': stats.get('paths', 0),
+            'vacuity_checks': {'ghost_assertions_whose_hypotheses_were_checked_for_consistency': stats.get('cover_checks', 0), 'found_contradictory': stats.get('vacuous', [])},
             'slow_obligations': slow[:20],
             'tables_enumerated': extras.get('tables', []),
             'bounded_standins': extras.get('bounded', []),
